@@ -218,9 +218,11 @@ def run(ctx):
     # by design.
     def has_footer(src):
         ls = src.split("\n")
+        # remove_testing_footer looks at EVERY line starting with `// args: `: the first one from which only
+        # blank / comment lines follow is the footer (by design the CLI does not print it)
         for k, l in enumerate(ls):
-            if l.startswith("// args: "):
-                return all((not x.strip()) or x.startswith("//") for x in ls[k:])
+            if l.startswith("// args: ") and all((not x.strip()) or x.startswith("//") for x in ls[k:]):
+                return True
         return False
 
     cand = [i for i in range(len(good)) if outs[i] is not None and not has_footer(good[i][1])]
